@@ -419,7 +419,9 @@ def special_flag(F):
             if n.get("k") == "Assign":
                 pp = place_path(n["lhs"]) or ""
                 if pp.endswith(".instr_flag.block_alt") and "Some" in str(n["rhs"].get("fres", {}).get("path", "")) + str(n["rhs"].get("k")):
-                    sets = any(x.get("k") == "AssignOp" and (place_path(x["lhs"]) or "").endswith("has_special_instr") for x in walk(fn["body"]))
+                    sets = any((x.get("k") == "AssignOp" and (place_path(x["lhs"]) or "").endswith("has_special_instr")) or
+                               (x.get("k") == "Assign" and (place_path(x["lhs"]) or "").endswith("has_special_instr") and "Bool(true)" in str(peel(x["rhs"]).get("lit")))
+                               for x in walk(fn["body"]))
                     r.analysed.append(fn["path"])
                     r.ob(sets, {"fn": fn["path"], "writes": "block_alt", "sets_flag": sets})
                     if not sets:
